@@ -108,6 +108,12 @@ def one(emit, cid, clf, rng, sample):
     K = int(y_idx.max()) + 1
     kind = str(rng.choice(["int", "str", "pm1", "01", "plain"]))
     y, names = relabel(y_idx, kind, K, rng)
+    # the same labels in another storage type (what a label is must not depend on how the array stores it)
+    if kind in ("01", "plain") or (kind == "int" and names.min() >= 0):
+        dt = str(rng.choice(["int64", "int64", "int32", "int8", "uint8", "uint16", "uint64", "float64"] +
+                            (["bool"] if (kind in ("01", "plain") and K == 2) else [])))
+        y, names = y.astype(dt), names.astype(dt)
+        kind = "%s:%s" % (kind, dt)
     alpha = 0.02 * float(rng.choice([0.3, 1, 3]))
     Cc = float(rng.choice([0.1, 1.0, 5.0]))
     base = dict(id=cid, cell="%s|K=%d|icpt=%d|%s" % (clf, K, int(icpt), "csc" if sparse_in else "dense"),
